@@ -256,6 +256,15 @@ def run(ctx):
 
     n = rule_TS(ctx, owners=["tree.utils", "process_trace.consensus", "process_trace.process_trace"])
     ctx.rule_min["TS"] = 6
+    # weighted support is built from the unique-topology dictionary: each topology's count and best score must be
+    # what the trace says (same rule objects as C11.A2), keyed by Tree equality (C03.I1 / I2)
+    from ..formula import imported
+    from . import C03, C11
+
+    ctx._own_rules = set(ctx.rule_min)
+    imported(ctx, C11.rule_A2)
+    imported(ctx, C03.rule_I1)
+    imported(ctx, C03.rule_I2)
 
 
 _C = "phyclone/process_trace/consensus.py"
